@@ -164,9 +164,13 @@ impl Builtins {
                                 pos.clone(),
                             )
                         })?;
+                        // The file is being imported from here on, a chain
+                        // of imports that leads back to it is a cycle.
+                        let mut stack_for_import = import_stack.clone();
+                        stack_for_import.push(path.clone());
                         let mut vm =
                             VM::with_pointer(self.strict, op_pointer, base_path)
-                                .with_import_stack(import_stack.clone());
+                                .with_import_stack(stack_for_import);
                         vm.run(env)?;
                         let result = Rc::new(vm.symbols_to_tuple(true));
                         env.borrow_mut()
